@@ -161,9 +161,9 @@ func ApplyUpdater(u *cs.Updater, d cs.Doc) cs.Doc {
 		n := cs.CloneDoc(d)
 		switch x := Get(n, u.Field).(type) {
 		case int64:
-			SetPath(n, u.Field, x+u.N)
+			SetPath(n, u.Field, cs.Incr(x, u.N))
 		case uint64:
-			SetPath(n, u.Field, int64(x)+u.N)
+			SetPath(n, u.Field, cs.Incr(int64(x), u.N))
 		case float64:
 			SetPath(n, u.Field, x+float64(u.N))
 		}
@@ -179,6 +179,9 @@ func (m *DB) Step(op *cs.Op, out *cs.Outcome) string {
 	m.NeedResync = false
 	if strings.HasPrefix(out.Err, "panic") || out.Err == "hang" {
 		return "call did not return normally: " + out.Err
+	}
+	if out.ArgBad != "" {
+		return "the call altered a document it was given: " + out.ArgBad
 	}
 	if strings.Contains(out.Err, "Txn is too big") {
 		// badger refuses an operation that does not fit one transaction: legal, but only as a
@@ -270,7 +273,7 @@ func (m *DB) Step(op *cs.Op, out *cs.Outcome) string {
 		}
 		delete(c.Docs, op.Id.Lit)
 		return ""
-	case "find", "foreach", "count", "exists", "findfirst":
+	case "find", "iterate", "foreach", "count", "exists", "findfirst":
 		return m.stepRead(op, out)
 	case "findbyid":
 		var conds []string
@@ -693,7 +696,7 @@ func (m *DB) stepRead(op *cs.Op, out *cs.Outcome) string {
 	match := Matching(c.Docs, q.Crit)
 	skip, limit := Window(q)
 	switch op.Kind {
-	case "find":
+	case "find", "iterate":
 		return CheckResult(q, c.Docs, out.Docs)
 	case "count":
 		if want := WindowLen(len(match), skip, limit); out.N != want {
